@@ -34,6 +34,17 @@ def binop(I, op, a, b, node=None):
     c = I.ctx
     a, b = I.unopt(a), I.unopt(b)
     ints = isinstance(a, (SInt, SBool)) and isinstance(b, (SInt, SBool))
+    if ints and isinstance(op, (ast.BitOr, ast.BitAnd)) and (isinstance(a, SBitInt) or isinstance(b, SBitInt)):
+        ba, bb = as_bits(a), as_bits(b)
+        if ba is not None and bb is not None:
+            if isinstance(op, ast.BitOr):
+                return SBitInt({k: simp(z3.Or(ba.get(k, z3.BoolVal(False)), bb.get(k, z3.BoolVal(False)))) for k in set(ba) | set(bb)})
+            return SBitInt({k: simp(z3.And(ba[k], bb[k])) for k in set(ba) & set(bb)})
+    if ints and isinstance(op, ast.BitOr):
+        # `packed |= 1 << i` starting from a constant: keep the bit view
+        ba, bb = as_bits(a), as_bits(b)
+        if ba is not None and bb is not None and not (concrete_int(as_int(a)) is not None and concrete_int(as_int(b)) is not None):
+            return SBitInt({k: simp(z3.Or(ba.get(k, z3.BoolVal(False)), bb.get(k, z3.BoolVal(False)))) for k in set(ba) | set(bb)})
     if ints:
         x, y = as_int(a), as_int(b)
         if isinstance(op, ast.Add):
@@ -57,10 +68,20 @@ def binop(I, op, a, b, node=None):
         if isinstance(op, ast.BitAnd):
             if isinstance(a, SBool) and isinstance(b, SBool):
                 return SBool(z3.And(a.t, b.t))
+            m = const_mask(x, y)
+            if m is not None:
+                v, cst = m
+                # exact: v & c = sum of 2^k * bit_k(v) over the set bits of c (c >= 0)
+                return SInt(z3.Sum([(2 ** k) * ((v / (2 ** k)) % 2) for k in range(cst.bit_length()) if (cst >> k) & 1] + [z3.IntVal(0)]))
             return SInt(UF_BITAND(x, y))
         if isinstance(op, ast.BitOr):
             if isinstance(a, SBool) and isinstance(b, SBool):
                 return SBool(z3.Or(a.t, b.t))
+            m = const_mask(x, y)
+            if m is not None:
+                v, cst = m
+                # exact: v | c = v + sum of 2^k * (1 - bit_k(v)) over the set bits of c (c >= 0)
+                return SInt(v + z3.Sum([(2 ** k) * (1 - ((v / (2 ** k)) % 2)) for k in range(cst.bit_length()) if (cst >> k) & 1] + [z3.IntVal(0)]))
             return SInt(UF_BITOR(x, y))
         if isinstance(op, ast.BitXor):
             if isinstance(a, SBool) and isinstance(b, SBool):
@@ -168,6 +189,16 @@ def binop(I, op, a, b, node=None):
     if isinstance(a, SNoneT) or isinstance(b, SNoneT):
         I.raise_exc(TypeError, f"unsupported operand None for {type(op).__name__}", node)
     raise Unsupported(f"operator {type(op).__name__} on {a!r}, {b!r}")
+
+
+def const_mask(x, y):
+    """(variable term, non-negative constant) when one operand of a bitwise op is a small constant"""
+    cx, cy = concrete_int(x), concrete_int(y)
+    if cy is not None and 0 <= cy < 2 ** 64:
+        return x, cy
+    if cx is not None and 0 <= cx < 2 ** 64:
+        return y, cx
+    return None
 
 
 def set_ty_of(a, b):
@@ -625,6 +656,8 @@ def symbolic_comprehension(I, e, frame, sub, kind, it):
       defining quantified facts (filter: membership; map: pointwise)."""
     c = I.ctx
     g = e.generators[0]
+    if I.codec is not None:
+        return codec_comprehension(I, e, frame, sub, kind, it)
     if I.unroll is not None and kind in ("list", "gen") and isinstance(it, ZVal) and isinstance(it.ty, TSeq) and isinstance(g.target, ast.Name) \
             and isinstance(e.elt, ast.Name) and e.elt.id == g.target.id and g.ifs:
         # filter over a pure sequence, unrolled WITHOUT forking on the conditions: the result is
@@ -719,6 +752,55 @@ def symbolic_comprehension(I, e, frame, sub, kind, it):
             c.assume(z3.ForAll([j], z3.Implies(z3.And(j >= 0, j < z3.Length(src)), res[j] == unwrap(rty, val))))
             return ZVal(TSeq(rty), Cell(res))
     raise Unsupported(f"comprehension over symbolic collection at line {e.lineno}")
+
+
+def codec_comprehension(I, e, frame, sub, kind, it):
+    """lock-step rule for comprehensions (reader over range(n) at a block; maps over collections)"""
+    from .codec import DictItems, SMapped, same_value
+
+    cd = I.codec
+    g = e.generators[0]
+    if g.ifs:
+        raise Unsupported("filtering comprehension in a codec")
+
+    def elt():
+        if kind == "dict":
+            return STuple([I.eval(e.key, sub), I.eval(e.value, sub)])
+        return I.eval(e.elt, sub)
+
+    if isinstance(it, SIterable) and it.what == "range":
+        start, stop, step = it.payload
+
+        def body():
+            I.assign(g.target, SInt(I.ctx.fresh("comp_ix", IntS)), sub)
+            return elt()
+
+        coll, elem, val = cd.reader_block(sub, stop.t - start.t, body, e)
+        res = cd.lift(coll, elem, val)
+    else:
+        coll = cd.as_collection(it, sub)
+        k, elem, n = cd.generic_of(coll)
+        I.assign(g.target, elem, sub)
+        val = elt()
+        res = cd.lift(coll, elem, val)
+    if kind == "dict":
+        if isinstance(res, DictItems) and res.what == "items":
+            return res.d
+        if isinstance(res, SMapped) and isinstance(res.src, DictItems) and isinstance(res.value, STuple):
+            # {k: f(v) for k, v in d.items()} with the same keys: a mapped dict
+            return SMappedDict(res.src.d, res.value)
+        raise Unsupported("dict comprehension in a codec does not rebuild the source dict")
+    if kind == "set":
+        raise Unsupported("set comprehension in a codec")
+    return res
+
+
+class SMappedDict(V):
+    kind = "mappeddict"
+
+    def __init__(self, d, kv):
+        self.d = d
+        self.kv = kv
 
 
 def pure_truth(I, cond, frame):
